@@ -21,7 +21,9 @@ VARIANTS = ["RandomLineAccessFile", "MemoryMappedRandomLineAccessFile", "Mutable
             "MutableRecordFile", "MutableMemoryMappedRecordFile"]
 
 PALETTE = ["plain", "", "two words", " lead and trail ", "žluťoučký kůň úpěl", "日本語", "tab\tsep", "x", "ďábelské ódy €",
-           "0", "-1", "a,b,c", "\"q\"", "{}"]
+           "0", "-1", "a,b,c", "\"q\"", "{}",
+           # str.splitlines() boundaries that are not line ends of a file
+           "vt\x0bff\x0cfs\x1c", "nel\x85ls\u2028ps\u2029"]
 
 
 def build_content(d, allow_empty, cr_ok):
@@ -87,7 +89,9 @@ def build_plan(choice: Choice, tier):
     src = d(7, "index.source")  # 0,1 built; 2 list; 3 index file; 4 subset; 5 permutation; 6 subset+permutation w/ repeats
     sel = list(range(n))
     if src == 4 and n:
-        sel = [i for i in sel if d(2, "index.keep") == 1] or [n - 1]
+        sel = [i for i in sel if d(2, "index.keep") == 1]
+        if not sel and d(3, "index.empty.ok") != 2:
+            sel = [n - 1]          # an EMPTY selection (a subset that selects no line) is kept in a third of the cases
     elif src == 5 and n:
         for i in range(n - 1, 0, -1):
             j = d(i + 1, "index.shuffle")
